@@ -68,12 +68,16 @@ func cmdCheck(args []string) {
 	prop := fs.String("prop", "", "property id")
 	tier := fs.String("tier", "", "quick|thorough")
 	keep := fs.Bool("keep", false, "keep smt files")
+	outDir := fs.String("out", "", "directory for evidence/ and replays/ (default: the verif directory)")
 	fs.Parse(args)
 	if *tier == "" {
 		*tier = os.Getenv("VERIF_TIER")
 	}
 	if *tier == "" {
 		*tier = "quick"
+	}
+	if *outDir == "" {
+		*outDir = *verif
 	}
 	seed, _ := strconv.Atoi(os.Getenv("VERIF_SEED"))
 	t0 := time.Now()
@@ -82,7 +86,7 @@ func cmdCheck(args []string) {
 	if err != nil {
 		fmt.Fprintln(os.Stderr, "load:", err)
 		// the package does not load: nothing can be proved
-		writeEngineFailure(*verif, *prop, *tier, seed, "package does not load: "+err.Error(), t0)
+		writeEngineFailure(*outDir, *prop, *tier, seed, "package does not load: "+err.Error(), t0)
 		os.Exit(1)
 	}
 	work, err := os.MkdirTemp("", "sodvc-"+*prop+"-")
@@ -241,7 +245,7 @@ func cmdCheck(args []string) {
 			fmt.Printf("KNOWN-FINDING-GONE: property=%s %s now discharges (listed as open)\n", *prop, k.Obligation)
 		}
 	}
-	replayDir := filepath.Join(*verif, "replays", *prop)
+	replayDir := filepath.Join(*outDir, "replays", *prop)
 	os.RemoveAll(replayDir)
 	sort.Slice(failed, func(i, j int) bool { return failed[i].Name < failed[j].Name })
 	for _, o := range failed {
@@ -316,9 +320,9 @@ func cmdCheck(args []string) {
 		"wall_s":      time.Since(t0).Seconds(),
 		"violations":  len(failed),
 	}
-	os.MkdirAll(filepath.Join(*verif, "evidence"), 0755)
+	os.MkdirAll(filepath.Join(*outDir, "evidence"), 0755)
 	b, _ := json.MarshalIndent(ev, "", " ")
-	os.WriteFile(filepath.Join(*verif, "evidence", *prop+".json"), b, 0644)
+	os.WriteFile(filepath.Join(*outDir, "evidence", *prop+".json"), b, 0644)
 	fmt.Printf("%s %s: %d functions under contract, %d/%d obligations discharged, %d suspended by known findings, %d failed, %.1fs\n",
 		*prop, *tier, nfun, discharged, total, len(suspended), len(failed), time.Since(t0).Seconds())
 	if exit != 0 {
